@@ -92,6 +92,8 @@ struct kobj {
     uint8_t state;
     int8_t table;
     bool immortal; /* NULL key and integer-encoded PTR keys are not "freed" by a destructor */
+    uint8_t koff;  /* 0..3: where the key bytes start inside bytes[] / p.cstr, so that equal keys live at every
+                    * address alignment (lookup3 has separate code paths for 4-, 2- and 1-byte aligned keys) */
     uint32_t dcount, exp;
 };
 
@@ -209,6 +211,9 @@ static const void *key_ptr(const struct kobj *k) {
     if (s_fam == FAM_PTR) {
         return (const void *)(uintptr_t)k->ptrval;
     }
+    if (s_fam == FAM_CSTR) {
+        return (const char *)k + k->koff; /* p.cstr is at offset 0 */
+    }
     return k;
 }
 
@@ -226,10 +231,11 @@ static struct kobj *kobj_from_key(const void *key) {
         return &s_k[idx - 1];
     }
     uintptr_t a = (uintptr_t)key, lo = (uintptr_t)&s_k[0];
-    if (a < lo || a >= lo + s_nk * sizeof(struct kobj) || (a - lo) % sizeof(struct kobj)) {
+    if (a < lo || a >= lo + s_nk * sizeof(struct kobj) ||
+        (a - lo) % sizeof(struct kobj) != (s_fam == FAM_CSTR ? s_k[(a - lo) / sizeof(struct kobj)].koff : 0)) {
         return NULL;
     }
-    return (struct kobj *)key;
+    return &s_k[(a - lo) / sizeof(struct kobj)];
 }
 
 static struct vobj *vobj_from_ptr(const void *p) {
@@ -491,8 +497,10 @@ static struct kobj *new_kobj(unsigned c, struct mon_rng *r) {
             }
             /* fall through */
         case FAM_CURSOR:
+            k->koff = (uint8_t)mon_below(r, 4);
+            memmove(k->bytes + k->koff, k->bytes, cl->len);
             k->p.cur.len = cl->len;
-            k->p.cur.ptr = (cl->len == 0 && mon_chance(r, 1, 2)) ? NULL : k->bytes;
+            k->p.cur.ptr = (cl->len == 0 && mon_chance(r, 1, 2)) ? NULL : k->bytes + k->koff;
             break;
         case FAM_STRING:
             k->p.str.allocator = NULL;
@@ -501,8 +509,9 @@ static struct kobj *new_kobj(unsigned c, struct mon_rng *r) {
             k->p.str.bytes[cl->len] = 0;
             break;
         case FAM_CSTR:
-            memcpy(k->p.cstr, cl->base, cl->len);
-            k->p.cstr[cl->len] = 0;
+            k->koff = (uint8_t)mon_below(r, 4);
+            memcpy(k->p.cstr + k->koff, cl->base, cl->len);
+            k->p.cstr[k->koff + cl->len] = 0;
             break;
         case FAM_U64:
             k->p.u64 = cl->u64;
@@ -521,25 +530,25 @@ static struct kobj *new_kobj(unsigned c, struct mon_rng *r) {
         aws_hash_callback_eq_fn *ef = fam_eq();
         if (cl->nobj > 0) {
             struct kobj *o = &s_k[cl->obj[mon_below(r, cl->nobj)]];
-            if (!ef(k, o) || !ef(o, k) || !ef(k, k)) {
+            if (!ef(key_ptr(k), key_ptr(o)) || !ef(key_ptr(o), key_ptr(k)) || !ef(key_ptr(k), key_ptr(k))) {
                 viol("C02:lib-equal-keys-not-equal", "family %s: two objects of one class compare unequal: %s / %s",
-                     s_fam_names[s_fam], mon_hex(k->bytes, cl->len, 32), mon_hex(o->bytes, cl->len, 32));
+                     s_fam_names[s_fam], mon_hex(k->bytes + (s_fam == FAM_CSTR ? 0 : k->koff), cl->len, 32), mon_hex(o->bytes + (s_fam == FAM_CSTR ? 0 : o->koff), cl->len, 32));
             }
-            if (hf(k) != hf(o)) {
+            if (hf(key_ptr(k)) != hf(key_ptr(o))) {
                 viol("C02:lib-equal-keys-hash-differently", "family %s: equal keys %s / %s hash to %016llx / %016llx",
-                     s_fam_names[s_fam], mon_hex(k->bytes, cl->len, 32), mon_hex(o->bytes, cl->len, 32),
-                     (unsigned long long)hf(k), (unsigned long long)hf(o));
+                     s_fam_names[s_fam], mon_hex(k->bytes + (s_fam == FAM_CSTR ? 0 : k->koff), cl->len, 32), mon_hex(o->bytes + (s_fam == FAM_CSTR ? 0 : o->koff), cl->len, 32),
+                     (unsigned long long)hf(key_ptr(k)), (unsigned long long)hf(key_ptr(o)));
             }
         }
         unsigned oc = (c + 1) % s_ncls;
         if (oc != c && (int)oc != s_nullcls && s_cls[oc].nobj > 0) {
             struct kobj *o = &s_k[s_cls[oc].obj[0]];
-            if (ef(k, o) || ef(o, k)) {
+            if (ef(key_ptr(k), key_ptr(o)) || ef(key_ptr(o), key_ptr(k))) {
                 viol("C02:lib-distinct-keys-equal", "family %s: keys of different classes compare equal",
                      s_fam_names[s_fam]);
             }
         }
-        if (hf(k) == 0) {
+        if (hf(key_ptr(k)) == 0) {
             flag(F_HASH0);
         }
     }
